@@ -7,6 +7,9 @@ PROP = "C10"
 TRUSTED = [
     "Model/RRuleSet.lean mirrors rruleset._iter/_genitem (rrule.py 1326-1424) and the mutators with _invalidates_cache; tied on every run by "
     "rset.iter (merge loop vs real rrulesets of real rrules) and rset.run (add/iterate/query histories, cache on/off)",
+    "rruleset._genitem (__init__, __next__, comparisons) and rruleset._iter are TRANSLATED from the source on every run (harness/translate_rrbase.py -> "
+    "Generated/RSetMerge.lean, meaning Model/MergePy.lean); gen_rset_iter_eq_model proves them equal to the merge model for every admissible heap discipline; "
+    "rset.titer runs the translated program against real sets; _invalidate_cache likewise (gen_invalidate_eq_model)",
     "heapq is standard library: modelled as an abstract priority queue (any minimal item on top); theorems hold for every admissible choice",
     "member rrules are abstracted to the finite sorted list they yield (rrule itself is C01's model); list.sort() on rdates/exdates is modelled by insertion sort",
     "the cache of the set object is the cached-iterator machine of C11 (Model/Cache.lean)",
@@ -314,7 +317,7 @@ def correspondence(ctx):
             got = "err " + type(ex).__name__
         inc_w = "|".join([ilist(sorted(rds))] + [ilist(m[1]) for m in incs])
         exc_w = "|".join([ilist(sorted(xds))] + [ilist(m[1]) for m in excs])
-        for op in ("rset.iter", "rset.spec"):
+        for op in ("rset.iter", "rset.spec", "rset.titer"):       # titer: _iter/_genitem as TRANSLATED from the source (Generated/RSetMerge.lean)
             reqs.append("%s %s %s" % (op, inc_w, exc_w)); exp.append(got)
         # the Python-side reference for the same input (the oracle judges it: impl != model = spec is a failing input)
         I = set(rds).union(*[m[1] for m in incs]) if incs else set(rds)
